@@ -39,7 +39,7 @@ impl FlightIngestService {
         let mut total_rows = 0u64;
         for batch in batches {
             total_rows += batch.num_rows() as u64;
-            self.ingester.write(batch).await?;
+            self.ingester.write_detached(batch).await?;
         }
         Ok(total_rows)
     }
